@@ -41,8 +41,13 @@ EXPECT = [
 
 
 def run(ctx):
+    # proved half: the standard-deviation missing rule and format agreement of xfunc_stddev.reduce, cell-wise
+    from ..kvc import cell_check
+
+    proved = cell_check.run(ctx, "C18", kinds={"stddev"})
     mon, totals = runner.run_sharded(drive_stats.work, ctx.tier)
     runner.report(ctx, mon, totals, contracts_stats.belongs, RULE, expect_clauses=EXPECT, exhaustive=True)
+    ctx.coverage["proved_subobligations"] = proved
     ctx.assumptions += [
         "bounded: holds on the enumerated data / layout / factor scope only (engine C is the bounded stand-in, not a proof)",
         "oracle: spec_stats (pure NumPy on the raw arguments; numpy.quantile, numpy.cov, numpy.sqrt are trusted)",
